@@ -14,6 +14,8 @@ pub struct Case {
     pub case: String,
     pub desc: String,
     pub replay: Value,
+    /// the clause name alone is the violation key (root cause identified); the case goes into the description only
+    pub fixed_key: bool,
 }
 
 #[derive(Default)]
@@ -101,8 +103,8 @@ impl Acc {
         }
         for (clause, (n, c)) in self.faults {
             rep.violation(
-                format!("{clause} [min: {}]", c.case),
-                format!("{} ({n} failing cases in the explored space; minimal one shown)", c.desc),
+                if c.fixed_key { clause.clone() } else { format!("{clause} [min: {}]", c.case) },
+                format!("{} ({n} failing cases in the explored space; minimal one shown: {})", c.desc, c.case),
                 c.replay,
             );
         }
